@@ -14,3 +14,13 @@ def strLine (op : String) (toks : List String) : String :=
   | _, _ => "bad-request"
 
 end MdIt.Drv
+
+namespace MdIt.Drv
+open MdIt.Proto
+/-- `unescape <s>` with the entity callback returning the match unchanged (the tie only sends inputs
+    without real character references) -/
+def unescapeLine (toks : List String) : String :=
+  match toks with
+  | [s] => encChars (unescapeAll (fun _ whole => whole) (decChars s))
+  | _ => "bad-request"
+end MdIt.Drv
